@@ -75,26 +75,21 @@ Proof.
   apply str_eqb_eq in EK. subst. vm_compute in HN. discriminate HN.
 Qed.
 
-Lemma spec_fold_plain (step : list contrib * list contrib * list adir * option node -> node ->
-                              list contrib * list contrib * list adir * option node) attrs :
-  (forall done run dirs slots a,
-     exists dirs' slots',
-       (step (done, run, dirs, slots) a = (done ++ run ++ contribs_of a, [], dirs', slots')
-        \/ step (done, run, dirs, slots) a = (done, run ++ contribs_of a, dirs', slots'))) ->
-  forall done run dirs slots,
-    let '(d', r', _, _) := fold_left step attrs (done, run, dirs, slots) in
-    d' ++ r' = done ++ run ++ flat_map contribs_of attrs.
+Lemma spec_fold_plain (step : list (list contrib) * list contrib * list adir * option node -> node ->
+                              list (list contrib) * list contrib * list adir * option node) attrs :
+  Forall (fun a => forall segs run dirs slots,
+            exists dirs' slots', step (segs, run, dirs, slots) a = (segs, run ++ contribs_of a, dirs', slots')) attrs ->
+  forall segs run dirs slots,
+    let '(segs', r', _, _) := fold_left step attrs (segs, run, dirs, slots) in
+    segs' = segs /\ r' = run ++ flat_map contribs_of attrs.
 Proof.
-  intros HS. induction attrs as [|x r IH]; intros done run dirs slots.
-  - cbn. rewrite app_nil_r. reflexivity.
+  induction 1 as [|x r HS Hr IH]; intros segs run dirs slots.
+  - cbn. rewrite app_nil_r. split; reflexivity.
   - cbn [fold_left flat_map].
-    destruct (HS done run dirs slots x) as [dirs' [slots' [EQ|EQ]]]; rewrite EQ.
-    + specialize (IH (done ++ run ++ contribs_of x) [] dirs' slots').
-      destruct (fold_left step r _) as [[[d' r'] ?] ?]. rewrite IH.
-      cbn [app]. rewrite <- !app_assoc. reflexivity.
-    + specialize (IH done (run ++ contribs_of x) dirs' slots').
-      destruct (fold_left step r _) as [[[d' r'] ?] ?]. rewrite IH.
-      rewrite <- !app_assoc. reflexivity.
+    destruct (HS segs run dirs slots) as [dirs' [slots' EQ]]; rewrite EQ.
+    specialize (IH segs (run ++ contribs_of x) dirs' slots').
+    destruct (fold_left step r _) as [[[d' r'] ?] ?]. destruct IH as [-> ->].
+    rewrite <- app_assoc. split; reflexivity.
 Qed.
 
 End Attrs.
@@ -121,16 +116,26 @@ Proof.
     match goal with |- context [fold_left ?st attrs ?acc] =>
       pose proof (spec_fold_plain E ic tag attrs st attrs) as SF end.
     match type of SF with ?P -> _ => assert (HP : P) end.
-    { intros done run dirs slots a. cbv beta iota zeta.
+    { rewrite Forall_forall. intros a Hin segs run dirs slots. cbv beta iota zeta.
+      assert (SA : simple_attr E a) by (rewrite Forall_forall in FA; apply FA; exact Hin).
       unfold contribs_of.
-      destruct (attr_spec E ic tag attrs a) as [[cs ds] sl].
-      cbn [fst].
-      eexists. eexists.
-      match goal with |- context [if ?b then _ else _] => destruct b end; [left|right]; reflexivity. }
+      destruct a; try contradiction SA.
+      - (* a spread: inlined without mergeProps *)
+        destruct (attr_spec E ic tag attrs (Spread a)) as [[cs ds] sl]. cbn [fst].
+        eexists. eexists. reflexivity.
+      - (* a plain attribute contributes one key/value entry *)
+        destruct SA as [WF [HN [[v [PV UV]] TON]]].
+        match goal with |- context [attr_spec E ic tag attrs (JAttr ?n1 ?n2)] =>
+          destruct (plain_attr_refines E ic tag attrs n1 n2 v (mkAcc [] [] [] [] None false false false false false s)
+                      WF HN PV UV TON) as [_ [H2' _]];
+          destruct (attr_spec E ic tag attrs (JAttr n1 n2)) as [[cs ds] sl] end.
+        cbn [fst] in *. subst cs. eexists. eexists. reflexivity. }
     specialize (SF HP [] [] [] None).
     match type of SF with context [fold_left ?st attrs ?acc] =>
       destruct (fold_left st attrs acc) as [[[d' r'] dirs'] slots'] end.
-    cbn [fst]. rewrite SF. reflexivity.
+    destruct SF as [-> ->]. cbn [fst app].
+    unfold close_run. rewrite MP. cbn [app].
+    destruct (flat_map (contribs_of E ic tag attrs) attrs); reflexivity.
   - unfold transform_attrs. destruct attrs as [|x r]; [contradiction NE; reflexivity|].
     set (a := fold_left _ _ _) in *.
     unfold final_attrs_expr. rewrite H2, H1.
